@@ -114,6 +114,41 @@ def decompress(p):
     return mk('decompress', sig, pre, body)
 
 
+def decompress_big(p):
+    """compressible data: a run token expands to C bytes (C around and above 2^20) followed by one symbolic byte; the stream is cut at two solver-chosen
+    positions.  The payload must come out complete and in order, and the stream must complete - however the wrapper sizes its calls to the decompressor"""
+    codec, C = p['codec'], p['count']
+    total = 2 + 5 + 2 + 1
+    sig = [('b', 'int'), ('x1', 'int'), ('x2', 'int')]
+    pre = ['0 <= b <= 255', '0 <= x1 <= %d' % total, '0 <= x2 <= %d' % total]
+
+    def body(a):
+        b = a[0]
+        rec, mod, attr, fake, hdr, wrapper = _env(codec)
+        whole = S.stream_runs(hdr, [(C, 65), (1, b)])
+        c1 = _sel(a[1], total + 1)
+        c2 = c1 + _sel(a[2], total - c1 + 1)
+        chunks = [whole[:c1], whole[c1:c2], whole[c2:]]
+        out, done = _with(mod, attr, fake, lambda: _run(chunks, wrapper.decompress()))
+        n = 0
+        for piece in out:
+            n += len(piece)
+        if done != ['C'] or n != C + 1:
+            return fail(codec=codec, run=C, chunks=chunks, observed_bytes=n, expected_bytes=C + 1, done=done)
+        # content: everything but the last byte is the run, the last byte is the symbolic one
+        last = [pc for pc in out if len(pc) > 0][-1]
+        if last[len(last) - 1] != b:
+            return fail(codec=codec, run=C, problem='last byte', observed=last[len(last) - 1], expected=b)
+        seen = 0
+        for piece in out:
+            k = len(piece) if seen + len(piece) <= C else C - seen
+            if k > 0 and piece[:k] != b'A' * k:
+                return fail(codec=codec, run=C, problem='run content')
+            seen += len(piece)
+        return True
+    return mk('decompress_big', sig, pre, body)
+
+
 def stub_valid(p):
     def run():
         r = S.validate()
@@ -174,7 +209,7 @@ class RealReplay(object):
         return dict(reproduced=not ok, detail=dict(observed=repr(b''.join(out)), done=done))
 
 
-FAMILIES = {'compress': compress, 'decompress': decompress, 'stub_valid': stub_valid, 'real_replay': RealReplay}
+FAMILIES = {'decompress_big': decompress_big, 'compress': compress, 'decompress': decompress, 'stub_valid': stub_valid, 'real_replay': RealReplay}
 
 
 def obligations(tier, seed):
@@ -189,6 +224,9 @@ def obligations(tier, seed):
         for n in range(0, (3 if q else 4) + 1):
             for mode in ('cuts', 'trunc'):
                 obs.append(Ob(PROP, 'decompress', dict(codec=codec, n=n, mode=mode), budget=b, group='decompress:' + mode, bound=dict(codec=codec, payload_bytes=n, mode=mode)))
+    for codec in ('gzip', 'zstd'):
+        for count in ((2 ** 20 + 1, 3 * 2 ** 20 + 5) if q else (2 ** 20 - 1, 2 ** 20, 2 ** 20 + 1, 3 * 2 ** 20 + 5, 2 ** 16 + 1, 2 ** 23 + 3)):
+            obs.append(Ob(PROP, 'decompress_big', dict(codec=codec, count=count), budget=b * 2, group='decompress: compressible data', bound=dict(codec=codec, run_bytes=count, symbolic='last byte and both cut positions')))
     obs.append(Ob(PROP, 'decompress', dict(codec='gzip', n=2, mode='trunc', _twin='reach'), budget=60, expect='refute'))
     obs.append(Ob(PROP, 'compress', dict(codec='zstd', lens=[1, 1], _twin='reach'), budget=60, expect='refute'))
     return obs
